@@ -37,6 +37,7 @@ def gen_pipelines(rng, tier, npipes=None, big=False, pool=None, p_enc=0.4):
                                [(4, 1), (3, 2), (2, 3), (1, 5)])
     actors = []
     ids = []
+    follows = False
 
     for p in range(n):
         main, ops = gen.gen_history(rng, pool=pool, p_enc=p_enc, big=big,
@@ -92,13 +93,23 @@ def gen_pipelines(rng, tier, npipes=None, big=False, pool=None, p_enc=0.4):
 
         r.update(gen.gen_stream_extras(rng))
 
+        if rng.chance(0.12) and not big:
+            # a consumer that follows the file while it is being written
+            # (one long-lived reader, the producer's sections arriving
+            # between its records)
+            r = {'id': rid, 'kind': 'reader', 'file': fname, 'follow': True}
+            follows = True
+
+            if rng.chance(0.5):
+                r['block_size'] = rng.choice([1, 7, 64, 95, 97, 1000])
+
         actors.append(r)
         ids.append((wid, len(ops) + 1))
         ids.append((rid, len(ops) + 4))
 
     sched = []
 
-    if n > 1 or rng.chance(0.3):
+    if n > 1 or follows or rng.chance(0.3):
         pool_ids = []
 
         for aid, k in ids:
@@ -197,6 +208,9 @@ def execute(scn, L):
 
         if nontrivial_model(m):
             out.nontrivial = True
+
+        if getattr(a, 'followed_live', 0) >= 2:
+            out.probe('records_read_while_producer_still_writing')
 
         if a.handle is not None and a.spec.get('block_size') and \
            a.handle.max_read and a.spec['block_size'] < 96:
